@@ -2,18 +2,20 @@
 (* Stage C for C16: issuances recorded from the real functions on random requests (any key-name
    length, any instant 1970..9979, any duration, any zone, any clock), judged by TLC.
    record: q (with sg.a = observed signature length), refused, lay, nb, na (ASCII of the two instants
-   found in the wire), signed (where the parser's covered bytes lie).                            *)
+   found in the wire), signed (where the parser's covered bytes lie), content (NdnPacketsCert!ContentExpect:
+   is the Content the bytes given, what key a relying party imports from it, does the certificate verify under it). *)
 EXTENDS NdnPacketsCert, Json, IOUtils, TLCExt
 Traces == ndJsonDeserialize(IOEnv.TRACE_FILE)
 VARIABLE tid
 Judge(r) ==
   LET c == CertCfg(r.q) IN
   IF r.refused THEN (IF r.q.fn = "self_sign" /\ ~HasSameDay(Now(r.q), 20) THEN 20 ELSE 2)
+  ELSE IF r.content.is = "other" THEN 7        \* a Content is there and it is not what was given: the specific clause first
   ELSE IF r.lay # Flat(Final(c)) THEN 3
   ELSE IF r.nb # NotBefore(r.q) THEN 4
   ELSE IF r.na \notin NotAfter(r.q) THEN 5
   ELSE IF r.signed # SignedRange(c) THEN 6
-  ELSE 1
+  ELSE ContentClause(r.q, r.content)
 TInit == tid \in 1..Len(Traces) /\ TLCSet(tid, Judge(Traces[tid]))
 TSpec == TInit /\ [][UNCHANGED tid]_tid
 Post == \A i \in 1..Len(Traces) : TLCGet(i) = 1 \/ PrintT(<<"REJECTED", i, TLCGet(i)>>)
